@@ -114,6 +114,21 @@ func c06Entries2() ([]c06Entry, resolve.VersionKey) {
 			if vParam("bl"+tag) != 0 {
 				attrs.SetAttr(version.Blocked, "")
 			}
+			if bw := vParam("bn" + tag); bw != 0 && len(reqs) > 0 {
+				// this version bundles a copy (version bw.0.0) of the package its first requirement names: a
+				// derived package p>ver>name with that one version, and a regular requirement on it
+				name := reqs[0].Name
+				mangled := c06PK(p + ">" + ver + ">" + name)
+				bver := c06N[bw] + ".0.0"
+				var battrs version.AttrSet
+				battrs.SetAttr(version.DerivedFrom, name)
+				var breqs []resolve.RequirementVersion
+				if r, ok := c06Slot2("b" + tag); ok {
+					breqs = append(breqs, r)
+				}
+				out = append(out, c06Entry{v: resolve.Version{VersionKey: resolve.VersionKey{PackageKey: mangled, VersionType: resolve.Concrete, Version: bver}, AttrSet: battrs}, reqs: breqs})
+				reqs = append(reqs, resolve.RequirementVersion{VersionKey: resolve.VersionKey{PackageKey: mangled, VersionType: resolve.Requirement, Version: bver}})
+			}
 			out = append(out, c06Entry{v: resolve.Version{VersionKey: resolve.VersionKey{PackageKey: c06PK(p), VersionType: resolve.Concrete, Version: ver}, AttrSet: attrs}, reqs: reqs})
 		}
 	}
@@ -126,8 +141,8 @@ func c06Entries2() ([]c06Entry, resolve.VersionKey) {
 func c06Effective(reqs []resolve.RequirementVersion) []resolve.RequirementVersion {
 	var out []resolve.RequirementVersion
 	for _, rq := range reqs {
-		if rq.Type.HasAttr(dep.Dev) {
-			continue
+		if rq.Type.HasAttr(dep.Dev) || c06Mangled(rq.Name) {
+			continue // a requirement on a derived package is the content of a bundle, not a dependency to resolve
 		}
 		scope, _ := rq.Type.GetAttr(dep.Scope)
 		if scope == "peer" {
@@ -150,6 +165,15 @@ func c06Effective(reqs []resolve.RequirementVersion) []resolve.RequirementVersio
 		}
 	}
 	return out
+}
+
+func c06Mangled(name string) bool {
+	for i := 0; i < len(name); i++ {
+		if name[i] == '>' {
+			return true
+		}
+	}
+	return false
 }
 
 func c06Want(ctx context.Context, lc *resolve.LocalClient, rq resolve.VersionKey) *resolve.Version {
@@ -199,6 +223,9 @@ func c06Lookup(from *treeNode, name string) *treeNode {
 
 // c06Collect lists the tree nodes below n together with the name of the directory each is installed in.
 func c06Collect(n *treeNode, dir string, depth int, out *[]*treeNode, dirs *[]string, maxDepth *int) {
+	if n.id == 0 && n.parent != nil {
+		return // a bundled copy nothing uses: it is reported in Graph.Error and is no node of the graph
+	}
 	*out = append(*out, n)
 	*dirs = append(*dirs, dir)
 	if depth > *maxDepth {
@@ -279,6 +306,10 @@ func VerifC06Install() {
 		if _, cerr := semver.NPM.ParseConstraint(e.Requirement); cerr != nil {
 			continue // a tag or an exact string: covered by the satisfaction clause
 		}
+		if c06Mangled(g.Nodes[e.To].Version.Name) {
+			vCover(true, "a bundled copy used")
+			continue // the copy a bundle brought along, not a pick from the registry
+		}
 		rq := resolve.VersionKey{PackageKey: g.Nodes[e.To].Version.PackageKey, VersionType: resolve.Requirement, Version: e.Requirement}
 		if want := c06Want(ctx, lc, rq); want != nil {
 			vCover(true, "fresh install checked")
@@ -298,6 +329,7 @@ func VerifC06Install() {
 	vObserveInt("tree nodes", len(all))
 	vCover(maxDepth >= 2, "a nested install (depth 2)")
 	vCover(maxDepth >= 3, "a nested install below a nested install (depth 3)")
+	bundles := vParam("anybundle") != 0
 	vAssert(len(all) == len(g.Nodes), "the install tree holds exactly the graph's nodes")
 	byID := make([]*treeNode, len(g.Nodes))
 	dirOf := make([]string, len(g.Nodes))
@@ -310,7 +342,12 @@ func VerifC06Install() {
 		}
 		byID[id] = tn
 		dirOf[id] = dirs[k]
-		vAssert(g.Nodes[id].Version == tn.ver.VersionKey, "tree node and graph node hold the same version")
+		if tn.bundled == nil {
+			vAssert(g.Nodes[id].Version == tn.ver.VersionKey, "tree node and graph node hold the same version")
+		}
+		if bundles {
+			continue // the two install-tree clauses are stated for universes without bundled packages
+		}
 		for al := range tn.alias {
 			for pk := range tn.children {
 				vAssert(pk.Name != al, "no directory holds two packages of one name")
@@ -357,6 +394,9 @@ func VerifC06Install() {
 		name := dirOf[e.To]
 		if al, ok := e.Type.GetAttr(dep.KnownAs); ok && al != "" {
 			vAssert(name == al, "an aliased requirement is resolved by a copy installed under the alias")
+		}
+		if bundles {
+			continue
 		}
 		found := c06Lookup(from, name)
 		vCover(found != nil && found.parent != nil && found.parent.parent != nil, "an edge resolved to a nested install")
